@@ -623,7 +623,9 @@ class OutputSchemaBuilder(
         def resolve(obj, _):
             return partial_serialize(getattr(obj, field_name))
 
-        factory = self.visit_with_conv(field.type, field.serialization)
+        # none_as_undefined removes None from field type, but field value can be None
+        field_type = Optional[field.type] if field.none_as_undefined else field.type
+        factory = self.visit_with_conv(field_type, field.serialization)
         field_schema = get_field_schema(tp, field)
         return lambda: graphql.GraphQLField(
             factory.type,
